@@ -921,6 +921,12 @@ impl rustc_driver::Callbacks for Cb {
                                     v.push(("int", J::Num(val)));
                                 }
                             }
+                        } else if ty.peel_refs().is_str() {
+                            if let Ok(cv) = tcx.const_eval_poly(did) {
+                                if let Some(bytes) = cv.try_get_slice_bytes_for_diagnostics(tcx) {
+                                    v.push(("str", s(String::from_utf8_lossy(bytes).to_string())));
+                                }
+                            }
                         }
                         consts.push(obj(v));
                     }
